@@ -277,6 +277,11 @@ type env struct {
 	gzRead      bool // a compressed rotated file was read back
 	sawRotated  bool // a rotated file was seen in the directory at some read
 	cache       map[string]cachedFile // rotated files already read, keyed by name; valid while size, mtime and inode are unchanged
+
+	// without rotation (MaxFileSize == 0) the set is the one file: it is read incrementally through one handle
+	rf   *os.File
+	tail []byte   // bytes of an incomplete last line
+	acc  []logRec // every record read so far
 }
 
 type cachedFile struct {
@@ -303,12 +308,16 @@ func newEnv(t fataler, dir string, cfg natCfg, zl *zap.Logger) *env {
 		return nil
 	}
 	e := &env{cfg: cfg, m: m, prevRot: map[string]string{}, cache: map[string]cachedFile{}}
-	e.dir = filepath.Join(dir, fmt.Sprintf("natlog-%d", fileCtr.Add(1)))
-	if err := os.Mkdir(e.dir, 0o755); err != nil {
-		t.Fatalf("harness: mkdir: %v", err)
-		return nil
+	if cfg.MaxFileSize > 0 {
+		e.dir = filepath.Join(dir, fmt.Sprintf("natlog-%d", fileCtr.Add(1)))
+		if err := os.Mkdir(e.dir, 0o755); err != nil {
+			t.Fatalf("harness: mkdir: %v", err)
+			return nil
+		}
+		e.path = filepath.Join(e.dir, logBase)
+	} else {
+		e.path = filepath.Join(dir, fmt.Sprintf("natlog-%d.json", fileCtr.Add(1)))
 	}
-	e.path = filepath.Join(e.dir, logBase)
 	lg, err := nat.NewLogger(nat.LoggerConfig{Enabled: true, FilePath: e.path, Format: nat.LogFormatJSON,
 		BufferSize: cfg.BufSize, BulkLogging: cfg.Bulk, MaxFileSize: cfg.MaxFileSize, Compress: cfg.Compress}, zap.NewNop())
 	if err != nil {
@@ -317,6 +326,12 @@ func newEnv(t fataler, dir string, cfg natCfg, zl *zap.Logger) *env {
 	}
 	e.lg = lg
 	m.SetLogger(lg)
+	if cfg.MaxFileSize == 0 {
+		if e.rf, err = os.Open(e.path); err != nil {
+			t.Fatalf("harness: open log for reading: %v", err)
+			return nil
+		}
+	}
 	for i := 0; i < cfg.NIPs; i++ {
 		if err := m.AddPublicIP(net.ParseIP(pubAddrs[i])); err != nil {
 			t.Fatalf("harness: AddPublicIP: %v", err)
@@ -348,7 +363,14 @@ func (e *env) close() {
 		e.lg = nil
 	}
 	e.settle()
-	os.RemoveAll(e.dir)
+	if e.rf != nil {
+		e.rf.Close()
+	}
+	if e.dir != "" {
+		os.RemoveAll(e.dir)
+	} else {
+		os.Remove(e.path)
+	}
 }
 
 // logRec is one line of the NAT log, normalised over the two JSON shapes the logger writes.
@@ -445,6 +467,9 @@ func (e *env) flush(all bool) {
 // file last.  pending is the number of records this flush is expected to write (classification only).
 func (e *env) readAll(all bool, pending int) (*logState, error) {
 	e.flush(all)
+	if e.rf != nil {
+		return e.readAppended()
+	}
 	ents, err := os.ReadDir(e.dir)
 	if err != nil {
 		return nil, fmt.Errorf("harness: read log directory: %w", err)
@@ -1137,6 +1162,35 @@ func (m *model) classes() []string {
 		cls = append(cls, "kf:"+m.hitSig)
 	}
 	return cls
+}
+
+// readAppended: the non-rotating logger's whole set is one append-only file.
+func (e *env) readAppended() (*logState, error) {
+	b, err := io.ReadAll(e.rf)
+	if err != nil {
+		return nil, fmt.Errorf("harness: read log: %w", err)
+	}
+	b = append(e.tail, b...)
+	e.tail = nil
+	for len(b) > 0 {
+		i := bytes.IndexByte(b, '\n')
+		if i < 0 {
+			e.tail = append([]byte{}, b...)
+			break
+		}
+		line := bytes.TrimSpace(b[:i])
+		b = b[i+1:]
+		if len(line) == 0 {
+			continue
+		}
+		r, perr := parseRec(line)
+		if perr != nil {
+			return &logState{recs: e.acc}, fmt.Errorf("unparsable: %q: %v", line, perr)
+		}
+		r.File = filepath.Base(e.path)
+		e.acc = append(e.acc, r)
+	}
+	return &logState{recs: e.acc}, nil
 }
 
 // rotClasses describes what the logger's rotation did in this case (measured from the files, not predicted).
